@@ -69,14 +69,18 @@ func (l *plog) note(format string) {
 	}
 }
 
-func (l *plog) WithComponent(string) logutil.Log         { return l }
-func (l *plog) Trace(string, ...interface{}) string       { return "" }
-func (l *plog) Un(string)                                 {}
-func (l *plog) Debugf(string, ...interface{})             { l.jitter() }
-func (l *plog) Infof(string, ...interface{})              { l.jitter() }
-func (l *plog) Warnf(f string, _ ...interface{})          { l.note(f); l.jitter() }
-func (l *plog) Errorf(f string, _ ...interface{})         { l.note(f); atomic.AddInt64(&l.sh.errors, 1); l.jitter() }
-func (l *plog) Fatalf(string, ...interface{})             {}
+func (l *plog) WithComponent(string) logutil.Log    { return l }
+func (l *plog) Trace(string, ...interface{}) string { return "" }
+func (l *plog) Un(string)                           {}
+func (l *plog) Debugf(string, ...interface{})       { l.jitter() }
+func (l *plog) Infof(string, ...interface{})        { l.jitter() }
+func (l *plog) Warnf(f string, _ ...interface{})    { l.note(f); l.jitter() }
+func (l *plog) Errorf(f string, _ ...interface{}) {
+	l.note(f)
+	atomic.AddInt64(&l.sh.errors, 1)
+	l.jitter()
+}
+func (l *plog) Fatalf(string, ...interface{})                      {}
 func (l *plog) ErrWarn(e error, _ string, _ ...interface{}) error  { return e }
 func (l *plog) ErrFatal(e error, _ string, _ ...interface{}) error { return e }
 func (l *plog) Err(e error, _ string, _ ...interface{}) error      { return e }
